@@ -720,6 +720,11 @@ impl From<ArrayData> for UnionArray {
         let max_id = fields.iter().map(|(i, _)| i).max().unwrap_or_default() as usize;
         let mut boxed_fields = vec![None; max_id + 1];
         for (cd, (field_id, _)) in child_data.into_iter().zip(fields.iter()) {
+            // the children of a sparse union are addressed at the union's own offset
+            let cd = match mode {
+                UnionMode::Sparse if offset != 0 || cd.len() != len => cd.slice(offset, len),
+                _ => cd,
+            };
             boxed_fields[field_id as usize] = Some(make_array(cd));
         }
         Self {
